@@ -210,6 +210,18 @@ func errorChainToMain(c *an.Ctx, r *runnerRoles, rule string) {
 	for _, rec := range findErrorRecorders(p) {
 		exempt[an.Short(rec)+":err("+an.Short(runStage)+")"] = "the stage's error is recorded as the run's error, which Schedule returns (decided by C02.2 / C02.4)"
 	}
+	// the same hand-over when the runner is called by the recording function itself
+	recorders := map[*ssa.Function]bool{}
+	for _, rec := range findErrorRecorders(p) {
+		recorders[rec] = true
+	}
+	inner := watchMode
+	watchMode = func(caller, callee *ssa.Function) string {
+		if recorders[caller] && (callee == schedule || callee.Name() == "Run" && inPkgs("pkg/runner")(callee)) {
+			return "the stage's error is recorded as the run's error, which Schedule returns (decided by C02.2 / C02.4)"
+		}
+		return inner(caller, callee)
+	}
 	chain := errChainX(c, rule, []*ssa.Function{r.execute, schedule}, nil, exempt, watchMode)
 	// two facts of C02.4 are premises of this chain: restated here
 	if last := p.Func("pkg/scheduler", "ExecutionGraph", "LastError"); last != nil {
